@@ -3,7 +3,11 @@
 // modes: exh-c (all strings over a 16-symbol alphabet), exh-t (all token strings over 14 markup tokens), gen (generated valid documents with comments,
 //        processing instructions, references: value oracle + every prefix), mut (mutations), deep (nesting 1000), roundtrip (random element trees), variant (handle histories),
 //        wide (documents and trees with 4,000-20,000 elements: flat / tabular / moderately nested empty elements, repeated siblings with content, generated valid documents with
-//        many children, a long flat document after a deep one on the same Parser object: accepted, same tree, toString -> parse identity)
+//        many children, a long flat document after a deep one on the same Parser object: accepted, same tree, toString -> parse identity),
+//        exh-p / prolog (things a tolerant parser might step over - document type declarations with literals and an internal subset, XML declaration, processing instructions,
+//        comments, CDATA sections - with LF / CR / CRLF inside every kind of token, in front of and inside documents that then fail or succeed: every reported position inside the text),
+//        alias (the text argument of parse lives inside the tree of the output element: attribute value / text child of the output element or of a descendant, a String sharing
+//        such a payload, output element = child of the owner; result compared with parsing an independent copy of the text into an identically built element)
 // Build flavours: the only private state used is the reference count of an Xml::Variant payload (state class shared / unshared of toElement() in the variant mode, and the
 // diagnosis in the probe of the operator= finding). With -DVERIF_NO_PRIVATE the class comes from the harness's own record of which handles were copied from one another
 // (Handle::pid / hidden / kidsShared); all parse / round-trip / independence oracles are public API in both flavours.
@@ -106,13 +110,17 @@ static const char* K_TOELEM = "Xml.Variant.toElement/shared/independence";
 static bool xHang, xPilb, xAvlb, xLws, xAssign, xToElem;
 
 static bool contains(const char* t, size_t n, const char* needle) { size_t k = strlen(needle); if (k > n) return false; for (size_t i = 0; i + k <= n; ++i) if (!memcmp(t + i, needle, k)) return true; return false; }
+static bool containsNoCase(const char* t, size_t n, const char* needle) { size_t k = strlen(needle); for (size_t i = 0; i + k <= n; ++i) { size_t j = 0; while (j < k && (t[i + j] | (((unsigned char)(t[i + j] - 'A') < 26) ? 0x20 : 0)) == needle[j]) ++j; if (j == k) return true; } return false; }
 static const char* xmlClass(const char* t, size_t n, bool* hasComment = 0, bool* hasPi = 0) {
   bool c = contains(t, n, "<!--"), p = contains(t, n, "<?"); if (hasComment) *hasComment = c; if (hasPi) *hasPi = p;
+  if (containsNoCase(t, n, "<!doctype")) return "document-type-declaration";   // constructs the parser does not claim: no verdict on acceptance, only on safety and on the reported position
+  if (contains(t, n, "<![CDATA[")) return "cdata-section";
   return c && p ? "comment+processing-instruction" : c ? "comment" : p ? "processing-instruction" : "plain";
 }
 
 struct PResult { bool ok; int line, col; bool havePos; bool skipped; };
 
+static bool g_countPrologPositions = false;
 static bool g_elideInput = false;   // wide mode: the text (hundreds of KiB) is described by the case's header line instead of being copied into the history
 static PResult parseGuarded(const char* text, size_t n, int api, Xml::Element& out, const char* what, Xml::Parser* reuse = 0) {
   PResult r; r.ok = false; r.line = r.col = 0; r.havePos = false; r.skipped = false;
@@ -151,7 +159,7 @@ static PResult parseGuarded(const char* text, size_t n, int api, Xml::Element& o
     if (api % 3 == 1) { char item[96]; snprintf(item, sizeof item, "%.60s", (const char*)errStr); for (char* p = item; *p; ++p) if (*p == ' ' || *p == '\n') *p = '_'; if (!strncmp(item, "Expected_end_tag_of", 19)) item[19] = 0; setItem("error_messages", item); }
     if (r.havePos) {
       if (xPilb && hasPi) cnt("skipped_excluded_positions");
-      else checkPos(text, n, r.line, r.col, prefix);
+      else { checkPos(text, n, r.line, r.col, prefix); if (g_countPrologPositions) { cnt("prolog_positions_checked"); if (r.line > 1) cnt("prolog_positions_checked_behind_line_1"); } }
     }
   }
   return r;
@@ -801,6 +809,294 @@ static void variantMode() {
   }
 }
 
+// ================================================================================================ prolog constructs and multi-line tokens in front of / around the failing position
+// The parser claims the XML declaration / processing instructions before the root and comments; it does not claim document type declarations and CDATA sections.
+// Whatever it does with them (reject at some byte, step over them), it must stay inside the text and every position it reports must lie inside the text:
+// no verdict on accepted / rejected here. Line breaks (LF, CR, CRLF) are placed inside every kind of token the generator knows.
+static const char* tokP[] = { "<!DOCTYPE a", "\n", "\r", ">", "<a>", "</a>", "<a", " [", "]", "<?p", "?>", "<!--", "-->", "<![CDATA[", "]]>", "\"" };
+struct ProGen {
+  enum { kBetween, kXmlDecl, kPi, kComment, kDoctype, kDoctypeLiteral, kDoctypeSubset, kCdata, kStartTag, kEndTag, kAttrValue, kText, kCharRef, NKIND };
+  Rng& r; Bytes& out; long lbDoctype, lbOther; bool doctype, subset, cdata, xmlDecl, pis, comments, unterminated, messy;
+  ProGen(Rng& rr, Bytes& o) : r(rr), out(o), lbDoctype(0), lbOther(0), doctype(false), subset(false), cdata(false), xmlDecl(false), pis(false), comments(false), unterminated(false), messy(false) {}
+  void lb(int kind) {
+    static const char* kn[NKIND] = { "between-constructs", "xml-declaration", "processing-instruction", "comment", "doctype", "doctype-literal", "doctype-internal-subset", "cdata", "start-tag", "end-tag", "attribute-value", "text", "character-reference" };
+    static const char* s[] = { "\n", "\r", "\r\n" }; static const char* nm[] = { "LF", "CR", "CRLF" }; static bool seen[NKIND][3];
+    int k = (int)r.below(3); out.adds(s[k]);
+    if (kind == kDoctype || kind == kDoctypeLiteral || kind == kDoctypeSubset) ++lbDoctype; else ++lbOther;
+    if (!seen[kind][k]) { seen[kind][k] = true; char it[64]; snprintf(it, sizeof it, "%s:%s", kn[kind], nm[k]); setItem("linebreaks_inside_tokens", it); }
+  }
+  void sp(int kind, int minimum) { int k = minimum + (r.chance(1, 3) ? (int)r.range(1, 2) : 0); for (int i = 0; i < k; ++i) { if (r.chance(1, 3)) lb(kind); else out.add(r.chance(1, 6) ? '\t' : ' '); } }
+  // up to maxLen characters of `alphabet` with line breaks in between; never completes the terminator `stop` (2 or 3 bytes)
+  void filler(int kind, const char* alphabet, int maxLen, const char* stop) {
+    size_t na = strlen(alphabet), ns = stop ? strlen(stop) : 0; int k = (int)r.below((u64)maxLen + 1);
+    for (int i = 0; i < k; ++i) {
+      if (r.chance(1, 6)) { lb(kind); continue; }
+      char c = alphabet[r.below(na)];
+      if (ns && c == stop[ns - 1] && out.size() >= ns - 1 && !memcmp(out.p() + out.size() - (ns - 1), stop, ns - 1)) c = 'x';
+      out.add(c);
+    }
+  }
+  void name() { static const char* nm[] = { "a", "b", "html", "root", "x-y", "n:s" }; if (r.chance(1, 4)) { Bytes b; genName(r, b); out.add(b); } else out.adds(nm[r.below(6)]); }
+  void xmlDeclaration() { xmlDecl = true; out.adds("<?xml"); sp(kXmlDecl, 1); out.adds("version=\"1.0\""); if (r.chance(1, 2)) { sp(kXmlDecl, 1); out.adds("encoding='UTF-8'"); } if (r.chance(1, 4)) { sp(kXmlDecl, 1); out.adds("standalone=\"yes\""); } sp(kXmlDecl, 0); out.adds("?>"); }
+  void pi() { pis = true; out.adds("<?"); name(); if (r.chance(2, 3)) { sp(kPi, 1); filler(kPi, "ab =\"'<>!-?x[]", 14, "?>"); } if (out[out.size() - 1] == '?') out.add(' '); out.adds("?>"); }
+  void comment() { comments = true; out.adds("<!--"); filler(kComment, "ab z-<>&\"'!?/=x-[]", 16, "-->"); out.adds("-->"); }
+  void cdataSection() { cdata = true; out.adds("<![CDATA["); filler(kCdata, "ab<>&]\"' x/=", 14, "]]>"); out.adds("]]>"); }
+  void literal() { char q = r.chance(1, 2) ? '"' : '\''; out.add(q); filler(kDoctypeLiteral, q == '"' ? "abc/.:-//EN >[<]&' " : "abc/.:-//EN >[<]&\" ", 24, 0); out.add(q); }
+  void doctypeDecl() {
+    doctype = true;
+    out.adds(r.chance(1, 10) ? "<!doctype" : "<!DOCTYPE"); sp(kDoctype, 1); name();
+    switch (r.below(4)) { case 1: sp(kDoctype, 1); out.adds("SYSTEM"); sp(kDoctype, 1); literal(); break; case 2: sp(kDoctype, 1); out.adds("PUBLIC"); sp(kDoctype, 1); literal(); sp(kDoctype, 1); literal(); break; default: break; }
+    if (r.chance(1, 2)) {
+      subset = true; sp(kDoctype, 0); out.add('[');
+      for (int n = (int)r.below(5); n > 0; --n) {
+        sp(kDoctypeSubset, 0);
+        switch (r.below(7)) {
+        case 0: out.adds("<!ELEMENT"); sp(kDoctypeSubset, 1); name(); sp(kDoctypeSubset, 1); out.adds(r.chance(1, 2) ? "(#PCDATA)" : "EMPTY"); sp(kDoctypeSubset, 0); out.add('>'); break;
+        case 1: out.adds("<!ATTLIST"); sp(kDoctypeSubset, 1); name(); sp(kDoctypeSubset, 1); name(); sp(kDoctypeSubset, 1); out.adds("CDATA"); sp(kDoctypeSubset, 1); out.adds("#IMPLIED"); sp(kDoctypeSubset, 0); out.add('>'); break;
+        case 2: out.adds("<!ENTITY"); sp(kDoctypeSubset, 1); name(); sp(kDoctypeSubset, 1); literal(); sp(kDoctypeSubset, 0); out.add('>'); break;
+        case 3: comment(); break;
+        case 4: pi(); break;
+        case 5: out.adds("%pe;"); break;
+        default: break;
+        }
+      }
+      sp(kDoctypeSubset, 0); out.add(']');
+    }
+    sp(kDoctype, 0);
+    if (r.chance(1, 16)) unterminated = true; else out.add('>');
+  }
+  void misc() { if (r.chance(1, 2)) comment(); else pi(); }
+  void text() {
+    int k = (int)r.range(1, 8);
+    for (int i = 0; i < k; ++i) {
+      switch (r.below(messy ? 12 : 10)) {
+      case 0: lb(kText); break;
+      case 1: out.adds(r.chance(1, 2) ? "&lt;" : "&#65;"); break;
+      case 2: out.add(' '); break;
+      case 10: out.adds("&#1"); lb(kCharRef); out.adds("0;"); break;        // a reference torn apart by a line break
+      case 11: out.adds(r.chance(1, 2) ? "&" : "]]>"); break;
+      default: out.add((char)r.range('a', 'z')); break;
+      }
+    }
+  }
+  void element(int depth) {
+    Bytes nm; { size_t b = out.size(); out.add('<'); name(); nm.add(out.p() + b + 1, out.size() - b - 1); }
+    for (int na = (int)r.below(3); na > 0; --na) {
+      sp(kStartTag, 1); name(); if (r.chance(1, 3)) sp(kStartTag, 0); out.add('='); if (r.chance(1, 3)) sp(kStartTag, 0);
+      char q = r.chance(1, 2) ? '"' : '\''; out.add(q);
+      for (int k = (int)r.below(7); k > 0; --k) { if (messy && r.chance(1, 6)) lb(kAttrValue); else if (r.chance(1, 6)) out.adds("&#10;"); else out.add((char)r.range('a', 'z')); }
+      out.add(q);
+    }
+    if (r.chance(1, 3)) sp(kStartTag, 0);
+    if (r.chance(1, 5)) { out.adds("/>"); return; }
+    out.add('>');
+    for (int nk = (int)r.below(depth >= 3 ? 2 : 5); nk > 0; --nk) {
+      switch (r.below(messy ? 8 : 6)) {
+      case 0: case 1: text(); break;
+      case 2: comment(); break;
+      case 3: sp(kBetween, 1); break;
+      case 6: cdataSection(); break;
+      case 7: pi(); break;
+      default: element(depth + 1); break;
+      }
+    }
+    out.adds("</"); if (messy && r.chance(1, 8)) out.adds("other"); else out.add(nm); if (r.chance(1, 3)) sp(kEndTag, 0); out.add('>');
+  }
+  // returns the offset at which the body (root element) starts
+  size_t document() {
+    messy = r.chance(1, 2);
+    if (r.chance(1, 4)) sp(kBetween, 0);
+    if (r.chance(1, 2)) { xmlDeclaration(); if (r.chance(1, 2)) sp(kBetween, 0); }
+    while (r.chance(1, 3)) { misc(); if (r.chance(1, 2)) sp(kBetween, 0); }
+    int where = (int)r.below(12);    // 0-7: declaration in the prolog; 8-9: none; 10: inside the root; 11: behind the root
+    if (where < 8) { doctypeDecl(); if (r.chance(1, 2)) sp(kBetween, 0); while (r.chance(1, 3)) { misc(); if (r.chance(1, 2)) sp(kBetween, 0); } }
+    size_t body = out.size();
+    switch (r.below(10)) {
+    case 0: break;                                                              // no root element at all
+    case 1: { static const char* bad[] = { "<a>", "<a></b>", "<a b=\"x", "<", "</a>", "<a><b></a>", "<a b=c/>", "text" }; out.adds(bad[r.below(8)]); break; }
+    default:
+      if (where == 10) { out.adds("<r>"); doctypeDecl(); element(1); out.adds("</r>"); } else element(0);
+      break;
+    }
+    if (where == 11) { sp(kBetween, 0); doctypeDecl(); }
+    if (r.chance(1, 3)) sp(kBetween, 0);
+    while (r.chance(1, 5)) { misc(); if (r.chance(1, 2)) sp(kBetween, 0); }
+    return body;
+  }
+};
+
+static void prologMode() {
+  static const char* offending[] = { "<", ">", "\"", "'", "&", "</x>", "=", "/", "\n", "\r", "<!DOCTYPE b\n>", "]]>", "<a", "<?", "<!--", "\x01" };
+  g_countPrologPositions = true;
+  for (long idx = opts.start; idx < opts.start + opts.cases; ++idx) {
+    if (!mine(idx)) continue;
+    beginCase(idx);
+    Rng r(opts.seed, 1607, (u64)idx);
+    Bytes text; ProGen g(r, text);
+    size_t body = g.document();
+    size_t n = text.size();
+    hist.addf("# document with prolog constructs, %lu bytes, body at offset %lu, doctype=%d subset=%d line-breaks-inside-doctype=%ld other-line-breaks-inside-tokens=%ld cdata=%d\n",
+              (unsigned long)n, (unsigned long)body, (int)g.doctype, (int)g.subset, g.lbDoctype, g.lbOther, (int)g.cdata);
+    long accepted = 0;
+    for (int api = 0; api < 3; ++api) { Xml::Element out; PResult pr = parseGuarded(text.p(), n, api, out, "parse"); if (pr.ok) ++accepted; }
+    if (n <= 240) everyPrefix(text.p(), n, (int)r.below(3));
+    else for (int k = 0; k < 120; ++k) { size_t cut = r.below(n + 1); Xml::Element o; parseGuarded(text.p(), cut, (int)r.below(3), o, "prefix"); cnt("prefix_parses"); }
+    // damage behind the prolog: the failing position then lies behind everything the parser stepped over
+    for (int k = 0; k < 6; ++k) {
+      Bytes t; size_t at = body + r.below(n - body + 1); const char* ins = offending[r.below(16)];
+      t.add(text.p(), at); t.adds(ins); if (r.chance(1, 2) && at < n) ++at; t.add(text.p() + at, n - at);
+      Xml::Element o; PResult pr = parseGuarded(t.p(), t.size(), (int)r.below(3), o, "parse-damaged"); if (pr.ok) cnt("prolog_damaged_accepted");
+      cnt("prolog_damaged_parses");
+    }
+    cnt("prolog_cases");
+    if (accepted) cnt("prolog_documents_accepted"); else cnt("prolog_documents_rejected");
+    if (g.doctype) { cnt("doctype_documents"); if (g.lbDoctype) cnt("doctype_documents_with_line_break_inside"); if (g.subset) cnt("doctype_documents_with_internal_subset"); if (accepted) cnt("doctype_documents_accepted"); if (g.unterminated) cnt("doctype_unterminated"); }
+    if (g.cdata) cnt("cdata_documents");
+    if (g.lbOther) cnt("documents_with_line_break_inside_another_token");
+    if (g.xmlDecl) setItem("prolog_constructs", "xml-declaration"); if (g.pis) setItem("prolog_constructs", "processing-instruction"); if (g.comments) setItem("prolog_constructs", "comment");
+    if (g.doctype) setItem("prolog_constructs", "doctype"); if (g.subset) setItem("prolog_constructs", "doctype-internal-subset"); if (g.cdata) setItem("prolog_constructs", "cdata-section");
+    if (idx % 211 == 0) sample("%.900s", hist.c());
+    u64 fp = hashBytes(1607, text);
+    endCase(fp, n >= 2);
+  }
+  g_countPrologPositions = false;
+}
+
+// ================================================================================================ aliasing between the text argument and the output element
+// The text handed to parse is owned by the tree of the element that is also the output argument (an embedded document kept in an attribute value or a text child).
+// Reference = the same library parsing an independent exactly-sized copy of the text into an element built from the same model: outcome, reported position and the
+// whole resulting tree (prior attributes / content included, whatever the library does with them) must be the same, and the sanitizer must stay silent.
+// Not generated: text = the output element's own `type` string, text = value of an attribute whose name also occurs in the document (both are locations parse has to write).
+static XNode* toModel(const Xml::Element& e, bool& hasNull) {
+  XNode* m = new XNode(false); m->name.add((const char*)e.type, e.type.length());
+  for (HashMap<String, String>::Iterator it = e.attributes.begin(), end = e.attributes.end(); it != end; ++it) { Bytes k, v; k.add((const char*)it.key(), it.key().length()); v.add((const char*)*it, (*it).length()); m->an.push(k); m->av.push(v); }
+  for (List<Xml::Variant>::Iterator it = e.content.begin(), end = e.content.end(); it != end; ++it) {
+    const Xml::Variant& v = *it;
+    if (v.isElement()) m->kids.push(toModel(v.toElement(), hasNull));
+    else { XNode* t = new XNode(true); if (v.isText()) { String s = v.toString(); t->text.add((const char*)s, s.length()); } else hasNull = true; m->kids.push(t); }
+  }
+  return m;
+}
+static const char* HOLDER = "embedded:doc";
+// the element reached from `root` by following `path` (indices into the content lists); in place (every value on the way holds its element alone)
+static Xml::Element& descend(Xml::Element& root, const Vec<int>& path) {
+  Xml::Element* e = &root;
+  for (size_t d = 0; d < path.n; ++d) { List<Xml::Variant>::Iterator it = e->content.begin(); for (int i = 0; i < path[d]; ++i) ++it; Xml::Variant& v = *it; if (!v.isElement()) harnessBug("alias: path does not lead to an element"); e = &v.toElement(); }
+  return *e;
+}
+static PResult rawParse(const char* p, const String* s, const Bytes& text, int api, Xml::Element& out, const char* prefix) {
+  PResult r; r.ok = false; r.line = r.col = 0; r.havePos = false; r.skipped = false;
+  char keyNT[200], keyMem[200]; snprintf(keyNT, sizeof keyNT, "%s/nonterminating", prefix); snprintf(keyMem, sizeof keyMem, "%s/memory-growth", prefix);
+  String errStr;
+  {
+    Xml::Parser parser;
+    guardOn(5, keyNT, keyMem, text.size());
+    switch (api % 3) {
+    case 0: r.ok = Xml::parse(s ? (const char*)*s : p, out); break;
+    case 1: if (s) r.ok = parser.parse(*s, out); else { String a; a.attach(p, text.size()); r.ok = parser.parse(a, out); } break;
+    default: if (s) r.ok = Xml::parse(*s, out); else { String a; a.attach(p, text.size()); r.ok = Xml::parse(a, out); } break;
+    }
+    guardOff();
+    if (!r.ok) {
+      if (api % 3 == 1) { r.line = parser.getErrorLine(); r.col = parser.getErrorColumn(); r.havePos = true; }
+      else { errStr = Error::getErrorString(); int l = 0, c = 0; if (sscanf((const char*)errStr, "Syntax error at line %d, column %d", &l, &c) == 2) { r.line = l; r.col = c; r.havePos = true; } else cnt("error_string_unparsed"); }
+    }
+  }
+  cnt("parses"); cnt("ops"); cnt("parse_bytes", (long)text.size());
+  if (!r.ok && r.havePos) { char pk[120]; snprintf(pk, sizeof pk, "Xml.parse/%s", xmlClass(text.p(), text.size())); checkPos(text.p(), text.size(), r.line, r.col, pk); }   // same key as in every other mode: not an aliasing effect
+  return r;
+}
+static void aliasMode() {
+  static const char* cls[] = { "text=attribute-value-of-output", "text=attribute-value-of-descendant", "text=text-child-of-output", "text=text-child-of-descendant",
+                               "text=string-sharing-attribute-value", "text=string-sharing-text-child", "output=child-of-owner" };
+  static const char* tkn[] = { "valid-document", "valid-document", "valid-document", "mutated-document", "corpus-document", "prolog-document", "truncated-document", "short" };
+  for (long idx = opts.start; idx < opts.start + opts.cases; ++idx) {
+    if (!mine(idx)) continue;
+    beginCase(idx);
+    Rng r(opts.seed, 1608, (u64)idx);
+    int c = (int)(idx % 7);
+    // ---- the text
+    Bytes text; int tk = (int)r.below(8);
+    switch (tk) {
+    case 0: case 1: case 2: case 3: case 6: {
+      DocGen g(r, text, r.chance(1, 2), (int)r.range(0, 3)); delete g.document();
+      if (tk == 3) { static const char* ins[] = { "<", ">", "\"", "&", "/", "=", "\n", "</x>", "<!--" }; size_t at = r.below(text.size() + 1); Bytes t; t.add(text.p(), at); t.adds(ins[r.below(9)]); t.add(text.p() + at, text.size() - at); text = t; }
+      if (tk == 6) { size_t cut = r.below(text.size() + 1); Bytes t; t.add(text.p(), cut); text = t; }
+      break; }
+    case 4: text.adds(corpus[r.below(NCORPUS)]); break;
+    case 5: { ProGen g(r, text); g.document(); break; }
+    default: { static const char* sh[] = { "", "<", "<a/>", "x", " ", "<a>t</a>", "<?p?>", "<!---->" }; text.adds(sh[r.below(8)]); break; }
+    }
+    { size_t n = text.size(); for (size_t j = 0; j < n; ++j) if (text[j] == 0) { Bytes t; t.add(text.p(), j); text = t; break; } }
+    if (contains(text.p(), text.size(), HOLDER)) { cnt("alias_skipped_holder_name_in_text"); endCase(mix(1608, (u64)idx), false); continue; }
+    // ---- the model of the tree that owns the text and contains (or is) the output element
+    u64 cl = 0; long lw = 0;
+    XNode* prior = r.chance(1, 4) ? new XNode(false) : genTree(r, 0, 2, cl, lw);
+    Vec<int> path;   // from the root to the owner of the text (classes 1, 3) or to the output element (class 6)
+    XNode* owner = prior;
+    if (c == 1 || c == 3 || c == 6) {
+      int depth = (int)r.range(1, 2);
+      for (int d = 0; d < depth; ++d) {
+        Vec<int> el; for (size_t j = 0; j < owner->kids.n; ++j) if (!owner->kids[j]->isText) el.push((int)j);
+        int pick; if (el.n && !r.chance(1, 4)) pick = el[r.below(el.n)]; else { XNode* ch = new XNode(false); genName(r, ch->name); owner->kids.push(ch); pick = (int)owner->kids.n - 1; }
+        path.push(pick); owner = owner->kids[(size_t)pick];
+      }
+    }
+    XNode* holderEl = c == 6 ? prior : owner;      // the element whose attribute / text child is the text
+    bool asText = c == 2 || c == 3 || c == 5; int holderIdx = -1;
+    if (asText) { XNode* t = new XNode(true); t->text = text; size_t at = r.below(holderEl->kids.n + 1); holderEl->kids.insert(at, t); holderIdx = (int)at; }   // (classes 2, 3, 5: the path, if any, ends at holderEl, so no index on it moves)
+    else {
+      Bytes k; k.adds(HOLDER); bool found = false; for (size_t j = 0; j < holderEl->an.n; ++j) if (holderEl->an[j].eq(k)) { holderEl->av[j] = text; found = true; }
+      if (!found) { size_t at = r.below(holderEl->an.n + 1); holderEl->an.insert(at, k); holderEl->av.insert(at, text); }
+    }
+    int api = (int)r.below(3);
+    hist.addf("# %s; api=%d; text (%s, %lu bytes) \"", cls[c], api, tkn[tk], (unsigned long)text.size()); hist.addEsc(text.p(), text.size()); hist.add("\"\n# tree before the call: "); describe(prior, hist); hist.add("\n");
+    char prefix[120]; snprintf(prefix, sizeof prefix, "Xml.parse/aliasing:%s", cls[c]);
+    // ---- reference: independent copy of the text, identically built tree
+    Vec<int> outPath; if (c == 6) outPath = path;
+    Vec<int> holderPath; if (c == 1 || c == 3) holderPath = path;
+    Xml::Element expRoot; PResult pe;
+    { setctx("Xml.Element.build"); buildElement(prior, expRoot, r);
+      Exact e(text.p(), text.size());
+      setctxf("%s/reference-parse-of-independent-copy", prefix); hist.add("parse an independent copy of the text into an identically built element\n");
+      pe = rawParse(e.p, 0, text, api, descend(expRoot, outPath), prefix); }
+    bool hasNull = false; XNode* expModel = toModel(expRoot, hasNull);
+    // ---- the aliasing call
+    Xml::Element actRoot; PResult pa;
+    { setctx("Xml.Element.build"); buildElement(prior, actRoot, r);
+      Xml::Element& outEl = descend(actRoot, outPath);
+      const Xml::Element& hEl = descend(actRoot, holderPath);
+      const char* p = 0; const String* s = 0; String share;
+      if (asText) {
+        List<Xml::Variant>::Iterator it = hEl.content.begin(); for (int i = 0; i < holderIdx; ++i) ++it;
+        const Xml::Variant& hv = *it; if (!hv.isText()) harnessBug("alias: holder is not a text item");
+        if (c == 5) { share = hv.toString(); s = &share; }
+        else { String tmp = hv.toString(); p = (const char*)tmp; }      // the buffer stays owned by the text item alone once tmp is gone
+      } else {
+        HashMap<String, String>::Iterator it = hEl.attributes.find(String(HOLDER, strlen(HOLDER))); if (it == hEl.attributes.end()) harnessBug("alias: holder attribute missing");
+        if (c == 4) { share = *it; s = &share; } else s = &*it;
+      }
+      { const char* q = s ? (const char*)*s : p; size_t qn = s ? s->length() : strlen(p); if (!text.eq(q, qn)) harnessBug("alias: holder does not hold the text"); }
+      setctx(prefix); hist.addf("parse(text owned by the tree, output element)  [%s]\n", cls[c]);
+      pa = rawParse(p, s, text, api, outEl, prefix);
+    }
+    setctxf("%s/compare", prefix);
+    char key[200];
+    if (pa.ok != pe.ok) { snprintf(key, sizeof key, "%s/outcome-differs-from-independent-copy", prefix); fail(key, "parse of a text owned by the output element's tree %s, parse of an independent copy of the same text into an identically built element %s", pa.ok ? "succeeded" : "failed", pe.ok ? "succeeded" : "failed"); }
+    if (!pa.ok && pa.havePos && pe.havePos && (pa.line != pe.line || pa.col != pe.col)) { snprintf(key, sizeof key, "%s/error-position-differs-from-independent-copy", prefix); fail(key, "failure reported at line %d column %d, for an independent copy of the same text at line %d column %d", pa.line, pa.col, pe.line, pe.col); }
+    if (!hasNull) { snprintf(key, sizeof key, "%s/result-differs-from-independent-copy", prefix); Cmp cmp(key, false, true); Text pth; cmp.go(actRoot, expModel, pth); cnt("alias_nodes_compared", cmp.nodes); cnt("alias_results_compared"); }
+    else cnt("alias_reference_with_null_item");
+    cnt("alias_cases"); if (pa.ok) cnt("alias_accepted"); else cnt("alias_rejected");
+    if (prior->an.n + prior->kids.n > 1 || prior->name.size()) cnt("alias_output_tree_with_prior_state");
+    setItem("alias_classes", cls[c]); setItem("alias_text_kinds", tkn[tk]);
+    if (idx % 307 == 0) sample("%.700s", hist.c());
+    u64 fp = mix(hashBytes(hashModel(prior), text), (u64)c);
+    setctx("Xml.Element.destructor/alias");
+    delete expModel; delete prior;
+    endCase(fp, text.size() >= 2);
+  }
+}
+
 // ================================================================================================ probes of the listed findings
 static int probe(const char* key) {
   beginCase(0);
@@ -843,6 +1139,9 @@ int main(int argc, char** argv) {
   else if (!strcmp(m, "roundtrip")) roundtripMode();
   else if (!strcmp(m, "variant")) variantMode();
   else if (!strcmp(m, "wide")) wideMode();
+  else if (!strcmp(m, "exh-p")) exhaustive(tokP, 16, 1612);
+  else if (!strcmp(m, "prolog")) prologMode();
+  else if (!strcmp(m, "alias")) aliasMode();
   else harnessBug("unknown mode %s", m);
   cnt("malloc_hook_calls", g_hookCalls);
   leakCheck("Xml/leak");
